@@ -14,6 +14,10 @@ def schema_for(seed: int, family: str, idx: int) -> dict:
     rng = random.Random(f"c17-{seed}-{family}-{idx}")
     if family == "grammar":
         return c17_gen.gen_schema(rng, idx)
+    if family == "multimod":
+        return c17_gen.gen_multimod_schema(rng, idx)
+    if family == "defaults":
+        return c17_gen.gen_defaults_schema(rng, idx)
     if family == "latename":
         return c17_gen.gen_latename_schema(rng, idx)
     return c17_gen.gen_identity_schema(rng, idx)
